@@ -29,8 +29,8 @@ func (s *sharedEntryAttributes) toXmlInternal(parent *etree.Element, onlyNewOrUp
 	switch s.schema.GetSchema().(type) {
 	case nil:
 		// This case represents a key level element. So no schema present. all child attributes need to be adedd directly to the parent element, since the key levels are not visible in the resulting xml.
-		if s.shouldDelete() {
-			// If the element is to be deleted
+		if s.shouldDelete() || s.keyLeafsAreDeleted() {
+			// If the element is to be deleted (a list entry cannot remain without its key leafs)
 			// add the delete operation to the parent element
 			utils.AddXMLOperation(parent, utils.XMLOperationDelete, operationWithNamespace, useOperationRemove)
 			// retrieve the parent schema, we need to extract the key names
@@ -206,7 +206,12 @@ func (s *sharedEntryAttributes) toXmlInternal(parent *etree.Element, onlyNewOrUp
 		// check if the element remains to exist
 		if s.shouldDelete() {
 			// if not, add the remove / delete op
-			utils.AddXMLOperation(parent.CreateElement(s.pathElemName), utils.XMLOperationDelete, operationWithNamespace, useOperationRemove)
+			delElem := parent.CreateElement(s.pathElemName)
+			// a leaf that belongs to another namespace than its parent carries its namespace also when it is deleted
+			if s.parent != nil && !s.parent.IsRoot() {
+				xmlAddNamespaceConditional(s, s.parent, delElem, honorNamespace)
+			}
+			utils.AddXMLOperation(delElem, utils.XMLOperationDelete, operationWithNamespace, useOperationRemove)
 			// see case nil for an explanation of this, it is basically the same
 			if s.parent.GetSchema() == nil {
 				xmlAddKeyElements(s.parent, parent)
@@ -233,6 +238,26 @@ func (s *sharedEntryAttributes) toXmlInternal(parent *etree.Element, onlyNewOrUp
 		return true, nil
 	}
 	return false, fmt.Errorf("unable to convert to xml (%s)", s.Path())
+}
+
+// keyLeafsAreDeleted reports for the Entry of a list entry (last key level) whether all its key leafs are
+// to be deleted. Deleting the key leafs one by one cannot be expressed, the entry goes as a whole.
+func (s *sharedEntryAttributes) keyLeafsAreDeleted() bool {
+	schemaParent, levelsUp := s.GetFirstAncestorWithSchema()
+	if schemaParent == nil {
+		return false
+	}
+	keys := schemaParent.GetSchemaKeys()
+	if len(keys) == 0 || levelsUp != len(keys) {
+		return false
+	}
+	for _, k := range keys {
+		c, exists := s.childs.GetEntry(k)
+		if !exists || !c.shouldDelete() {
+			return false
+		}
+	}
+	return true
 }
 
 // namespaceIsEqual takes the two given Entries, gets the namespace
